@@ -133,6 +133,54 @@ def supervisord_options(rng, here, rich=0.3):
     return o
 
 
+class _Ordered(list):
+    pats = ()
+
+
+def include_layout(rng, layout, files):
+    """Place {file name: sections} into directories and return the included
+    files in the order the reader reads them (patterns in order; within one
+    pattern sorted(glob(...)), i.e. by path) with the patterns as .pats.
+
+    flat/sub/both: every pattern matches files of one directory.
+    multi: ONE pattern whose wildcard is in a directory component matches
+    files that live in different directories (conf.d/d1, d2, d3)."""
+    incs = []
+    pats = []
+    names = sorted(files)
+    if layout == 'multi':
+        dirs = ['d1', 'd2', 'd3']
+        shape = rng.choice(['same-name', 'any-name'])
+        if shape == 'same-name':
+            # conf.d/d1/app.conf, conf.d/d2/app.conf, ...
+            pats.append(rng.choice(['conf.d/*/app.conf', '%(here)s/conf.d/d?/app.conf', 'conf.d/d[123]/app.conf']))
+            for i, fn in enumerate(names[:3]):
+                incs.append(('conf.d/%s/app.conf' % dirs[i], files[fn]))
+        else:
+            pats.append(rng.choice(['conf.d/d*/*.conf', 'conf.d/d?/?.conf']))
+            start = rng.randrange(3)
+            for i, fn in enumerate(names):
+                incs.append(('conf.d/%s/%s' % (dirs[(start + i) % 3], fn), files[fn]))
+        ordered = _Ordered(sorted(incs))
+        ordered.pats = pats
+        return ordered
+    if layout in ('flat', 'both'):
+        pats.append(rng.choice(['conf.d/*.conf', '%(here)s/conf.d/*.conf', 'conf.d/?.conf']))
+    if layout in ('sub', 'both'):
+        pats.append('conf.d/sub/*.conf')
+    for i, fn in enumerate(names):
+        if layout == 'flat' or (layout == 'both' and i % 2 == 0):
+            incs.append(('conf.d/' + fn, files[fn]))
+        else:
+            incs.append(('conf.d/sub/' + fn, files[fn]))
+    ordered = _Ordered()
+    for pat in pats:
+        d = 'conf.d/sub/' if 'sub' in pat else 'conf.d/'
+        ordered += sorted([x for x in incs if x[0].startswith(d) and x[0].count('/') == d.count('/')])
+    ordered.pats = pats
+    return ordered
+
+
 def valid_config(rng, here, thorough=False):
     """A well-formed structured configuration."""
     rich = 0.35 if thorough else 0.22
@@ -207,29 +255,15 @@ def valid_config(rng, here, thorough=False):
     if rng.random() < (0.45 if thorough else 0.3) and len(secs) >= 1:
         movable = [s for s in allsecs if s[0] != 'supervisord' or rng.random() < 0.15]
         rng.shuffle(movable)
-        nfiles = rng.choice([1, 1, 2, 3] if thorough else [1, 1, 2])
+        nfiles = rng.choice([1, 2, 3, 3] if thorough else [1, 2, 2, 3])
         files = {}
         for s in movable[:rng.randrange(1, len(movable) + 1)]:
             fn = rng.choice(['a.conf', 'b.conf', 'c.conf'][:nfiles])
             files.setdefault(fn, []).append(s)
             allsecs.remove(s)
-        layout = rng.choice(['flat', 'sub', 'both'] if thorough else ['flat', 'flat', 'sub'])
-        incs = []
-        pats = []
-        if layout in ('flat', 'both'):
-            pats.append(rng.choice(['conf.d/*.conf', '%(here)s/conf.d/*.conf', 'conf.d/?.conf']))
-        if layout in ('sub', 'both'):
-            pats.append('conf.d/sub/*.conf')
-        for i, fn in enumerate(sorted(files)):
-            if layout == 'flat' or (layout == 'both' and i % 2 == 0):
-                incs.append(('conf.d/' + fn, files[fn]))
-            else:
-                incs.append(('conf.d/sub/' + fn, files[fn]))
-        # read order: patterns in order, sorted file names within one pattern
-        ordered = []
-        for pat in pats:
-            d = 'conf.d/sub/' if 'sub' in pat else 'conf.d/'
-            ordered += sorted([x for x in incs if x[0].startswith(d) and x[0].count('/') == d.count('/')])
+        layout = rng.choice(['flat', 'sub', 'both', 'multi', 'multi'] if thorough else ['flat', 'sub', 'multi', 'multi'])
+        ordered = include_layout(rng, layout, files)
+        pats = ordered.pats
         # a section also present in the main file: the included file overrides key by key
         if ordered and rng.random() < 0.3 and secs:
             name, opts = rng.choice(secs)
@@ -239,7 +273,7 @@ def valid_config(rng, here, thorough=False):
         if ordered and rng.random() < 0.25:
             ordered[0][1].append(('include', [('files', 'nested/*.conf')]))
         allsecs.insert(rng.randrange(0, len(allsecs) + 1), ('include', [('files', rng.choice([' ', '\n']).join(pats))]))
-        cfg = {'main': allsecs, 'incs': ordered}
+        cfg = {'main': allsecs, 'incs': list(ordered)}
     return cfg
 
 
@@ -257,6 +291,36 @@ def sweep_configs(here, thorough=False):
                 a = [('command', '/bin/a %(process_num)d'), ('numprocs', str(n)), ('numprocs_start', str(s)),
                      ('process_name', t), ('environment', 'I="%(process_num)d"')]
                 out.append({'main': [('supervisord', [('environment', 'I="sup",J="j"')]), ('program:a', a)], 'incs': []})
+    # ---- included files in one or several directories, each using %(here)s in command,
+    # directory, environment and log file names; per-process environments; a [group:x]
+    # of programs with different environments
+    def app(name, n):
+        return ('program:' + name,
+                [('command', '%(here)s/run.sh --app=' + name + ' --slot=%(process_num)d'),
+                 ('process_name', '%(program_name)s_%(process_num)d'), ('numprocs', str(n)),
+                 ('environment', 'APP_HOME="%(here)s",APP="' + name + '",SLOT="%(process_num)d"'),
+                 ('stdout_logfile', '%(here)s/logs/%(program_name)s_%(process_num)d.out'),
+                 ('stderr_logfile', '%(here)s/logs/%(program_name)s.err'),
+                 ('directory', '%(here)s')])
+    for pats, places in [
+        (['conf.d/*/app.conf'], ['conf.d/d1/app.conf', 'conf.d/d2/app.conf', 'conf.d/d3/app.conf']),
+        (['conf.d/d?/*.conf'], ['conf.d/d1/z.conf', 'conf.d/d2/a.conf', 'conf.d/d3/m.conf']),
+        (['conf.d/d1/*.conf', 'conf.d/d2/*.conf', 'conf.d/d3/*.conf'],
+         ['conf.d/d1/app.conf', 'conf.d/d2/app.conf', 'conf.d/d3/app.conf']),
+        (['conf.d/d3/*.conf', 'conf.d/d*/a*.conf'], ['conf.d/d3/z.conf', 'conf.d/d1/app.conf', 'conf.d/d2/app.conf']),
+        (['conf.d/*.conf', 'conf.d/sub/*.conf'], ['conf.d/a.conf', 'conf.d/b.conf', 'conf.d/sub/c.conf']),
+    ]:
+        for n in ([2] if not thorough else [1, 2, 3]):
+            for grouped in (False, True):
+                names = ['alpha', 'beta', 'gamma']
+                main = [('supervisord', [('logfile', '%(here)s/logs/sd.log'), ('childlogdir', '%(here)s/logs'),
+                                         ('environment', 'SHARED="base",TIER="global",APP="none"')]),
+                        ('program:solo', [('command', '%(here)s/run/solo'), ('directory', '%(here)s')]),
+                        ('include', [('files', ' '.join(pats))])]
+                if grouped:
+                    main.append(('group:site', [('programs', 'alpha,solo,gamma')]))
+                incs = [(rel, [app(nm, n)]) for rel, nm in zip(places, names)]
+                out.append({'main': main, 'incs': incs})
     memberships = [None, 'a', 'b', 'a,b', 'b,a', 'a,a']
     for m1 in memberships:
         for m2 in ([None, 'a', 'b'] if not thorough else memberships):
